@@ -349,6 +349,19 @@ def _step(seed, schema, frame, op, is_polars, add):
                     add("attributes_preserved", f"{seed}:{opname}:to_column:{'+'.join(lost)}", f"{op}: {[(k, b[k], a.get(k)) for k in lost][:3]}"[:500])
             else:
                 add("attributes_preserved", f"{seed}:{opname}:column_missing", str(op))
+    if op[0] == "set_index" and op[2] and schema.index is not None and hasattr(schema.index, "indexes") and hasattr(res.index, "indexes"):
+        # appending to an existing MultiIndex: its own options and its existing levels are untouched properties
+        def _mi_opts(ix):
+            return {k: FP.fingerprint(v) for k, v in vars(ix).items() if k in ("_coerce", "strict", "name", "ordered", "unique", "_unique")}
+
+        b, a = _mi_opts(schema.index), _mi_opts(res.index)
+        lost = sorted(k for k in b if b[k] != a.get(k))
+        if lost:
+            add("attributes_preserved", f"{seed}:{opname}:multiindex_options:{'+'.join(lost)}", f"{op}: {[(k, b[k], a.get(k)) for k in lost]}"[:400])
+        for old_level, new_level in zip(schema.index.indexes, res.index.indexes):
+            if FP.fingerprint(old_level) != FP.fingerprint(new_level):
+                add("attributes_preserved", f"{seed}:{opname}:existing_level_changed", f"{op}: level {old_level.name}")
+                break
     if op[0] not in ("set_index", "reset_index") and schema.index is not None and res.index is not None:
         if FP.fingerprint(schema.index) != FP.fingerprint(res.index):
             add("attributes_preserved", f"{seed}:{opname}:index_changed", str(op))
